@@ -18,6 +18,7 @@
 //     Book.PartsFirst (chapters before the OPF/NCX/nav members; mimetype always stays first and
 //     stored, META-INF/container.xml second, as OCF requires / producers do); Members() returns
 //     the list for any other arrangement
+//   - TOC order                = Book.NavOrder (order of the NCX navPoints / nav <li> entries)
 //   - EPUB 2 vs 3              = Book.Version (2: NCX + spine toc=…, 3: nav document with
 //     properties="nav"; Book.BothNav writes both, as most EPUB 3 producers do)
 //   - optional parts           = Book.OmitNav (no NCX / nav), Book.OmitMimetype, Book.NavInSpine
@@ -76,6 +77,7 @@ type Book struct {
 	OmitNav      bool // neither NCX nor nav document
 	OmitMimetype bool
 	NavInSpine   bool     // EPUB 3: the nav document is also the first spine item (common in the wild)
+	NavOrder     []int    // order of the NCX navPoints / nav entries: permutation of 0..len(Chapters)-1 (nil: spine order); the TOC is not the reading order
 	NavHrefs     []string // hrefs used in the NCX / nav (default: the chapters' hrefs relative to the nav file = same directory as the OPF)
 }
 
@@ -304,8 +306,14 @@ func (b *Book) Members() []zipw.Member {
 	fmt.Fprintf(&ncx, `<ncx xmlns="http://www.daisy.org/z3986/2005/ncx/" version="2005-1"><head><meta name="dtb:uid" content="%s"/></head><docTitle><text>%s</text></docTitle><navMap>`, Esc(ident), Esc(b.Title))
 	nav.WriteString(`<?xml version="1.0" encoding="UTF-8"?>` + "\n")
 	nav.WriteString(`<html xmlns="http://www.w3.org/1999/xhtml" xmlns:epub="http://www.idpf.org/2007/ops"><head><title>Contents</title></head><body><nav epub:type="toc" id="toc"><h2>Contents</h2><ol>`)
-	for i := range chs {
-		fmt.Fprintf(&ncx, `<navPoint id="np%d" playOrder="%d"><navLabel><text>%s</text></navLabel><content src="%s"/></navPoint>`, i+1, i+1, Esc(label(i)), Esc(navHref(i)))
+	no := b.NavOrder
+	if no == nil {
+		for i := range chs {
+			no = append(no, i)
+		}
+	}
+	for n, i := range no {
+		fmt.Fprintf(&ncx, `<navPoint id="np%d" playOrder="%d"><navLabel><text>%s</text></navLabel><content src="%s"/></navPoint>`, n+1, n+1, Esc(label(i)), Esc(navHref(i)))
 		fmt.Fprintf(&nav, `<li><a href="%s">%s</a></li>`, Esc(navHref(i)), Esc(label(i)))
 	}
 	ncx.WriteString(`</navMap></ncx>`)
